@@ -38,6 +38,7 @@ type c13Step struct {
 type metricsSnap struct {
 	inflight, total, active, accepted float64
 	dialActive                        float64
+	dialNegative                      bool
 	byCode                            map[string]float64
 }
 
@@ -70,7 +71,14 @@ func gather(reg *prometheus.Registry) metricsSnap {
 			case "vh_listener_cx_total":
 				s.accepted += val(m)
 			case "vh_dialer_cx_active":
-				s.dialActive += val(m)
+				// every series by itself: a connection counted as opened under one host label and as closed under
+				// another leaves the sum at zero and both series wrong
+				if v := val(m); v < 0 {
+					s.dialActive -= v
+					s.dialNegative = true
+				} else {
+					s.dialActive += v
+				}
 			}
 		}
 	}
@@ -160,7 +168,8 @@ func c13Scenario(idx int, steps []c13Step, o, ot *peer) (map[string]any, []map[s
 			res["ok"], res["why"] = false, why
 		}
 	}
-	f, err := startFwd(fwdCfg{Name: "fwd", Localhost: "allow", MITM: true, MITMDomains: []string{`^mitm\.origin\.test$`}, Deny: []string{`^denied\.test$`}})
+	f, err := startFwd(fwdCfg{Name: "fwd", Localhost: "allow", MITM: true, MITMDomains: []string{`^mitm\.origin\.test$`}, Deny: []string{`^denied\.test$`},
+		ConnectTo: []string{"moved.test:80:origin.test:80"}})
 	if err != nil {
 		fatal("start: %v", err)
 	}
@@ -217,6 +226,9 @@ func c13Scenario(idx int, steps []c13Step, o, ot *peer) (map[string]any, []map[s
 		evs = append(evs, map[string]any{"ev": "exchange", "c": st.C, "k": k})
 		nreq++
 		host, pfx := "origin.test", "http://origin.test"
+		if idx%2 == 1 {
+			host, pfx = "moved.test", "http://moved.test" // dialled at origin.test:80 (--connect-to)
+		}
 		if c.mitm {
 			host, pfx = "mitm.origin.test", ""
 		}
@@ -388,8 +400,11 @@ func c13Scenario(idx int, steps []c13Step, o, ot *peer) (map[string]any, []map[s
 		time.Sleep(10 * time.Millisecond)
 	}
 	res["dial_active_after_stop"] = snap.dialActive
+	if snap.dialNegative {
+		fail("a series of the dialer's active-connection gauge is negative")
+	}
 	if snap.dialActive != 0 {
-		fail(fmt.Sprintf("dialer active-connection gauge is %v after shutdown", snap.dialActive))
+		fail(fmt.Sprintf("dialer active-connection gauge is %v after shutdown (series summed by magnitude)", snap.dialActive))
 	}
 	res["nt"] = len(steps) > 1
 	return res, evs
